@@ -936,7 +936,7 @@ class Interp:
         v0 = cand[0][1]
         if all(isinstance(v, VSeq) for _, v in cand):
             return VSeq([Seg("A", st.fresh_seq("dictval"), self.fresh_len("dictval"))], v0.pytype)
-        if len(cand) <= 8 and not fr.spec:
+        if len(cand) <= 64 and not fr.spec:
             for p, v in cand[:-1]:
                 if st.decide(zbool(p)):
                     return v
@@ -1109,7 +1109,11 @@ class Interp:
             if name in o.init and heap_view is None:
                 # field was deleted? fall through
                 pass
-            v = self.fresh_of_type(ty, "%s.%s" % (self.obj_hint(ref), name))
+            if ty == "from-init":
+                # value assigned by the class's real __init__ (a literal table): evaluate that one assignment
+                v = self.E.init_assigned_value(self, ref, o.cls, name)
+            else:
+                v = self.fresh_of_type(ty, "%s.%s" % (self.obj_hint(ref), name))
             o.init[name] = v
             if name not in o.fields:
                 o.fields[name] = v
